@@ -20,7 +20,7 @@ CHECKS = {
 }
 
 CHECKS["C16"] = dict(
-    technique="static: const-evaluation of every parameter of the generic pairing engine (crate config vs ark_bls12_377 config, same driver) + recomputation from first principles (CONST rule), method-override table",
+    technique="static: const-evaluation of every parameter of the generic pairing engine (crate config vs ark_bls12_377 config, same driver) + recomputation from first principles (CONST rule), method-override table, and the field-layer rules of C10/C11 instantiated on Fp (the engine's base field is the crate's own wrapper)",
     category="other",
     text="The exported engine is arkworks' generic Bls12<Config>; it equals the reference engine iff the parameters agree. All 21 associated constants "
          "(about thirty limb arrays: non-residues, 26 Frobenius coefficients, curve coefficients, both generators, cofactors and inverses, x, twist type) are "
@@ -34,7 +34,7 @@ OTHER_NOTE = ("Trusted: rustc's type checker, trait resolution and const evaluat
               "subtle / r1cs-std callees); lower layers as stated in the text (each layer's own check discharges them).")
 
 CHECKS["C01"] = dict(
-    technique="static: abstract interpretation of type-checked HIR into algebraic terms + canonical polynomial normal form compared with the specification's decode/encode terms (TERM), byte funnel, sign convention",
+    technique="static: abstract interpretation of type-checked HIR into algebraic terms + canonical polynomial normal form compared with the specification's decode/encode terms (TERM), byte funnel, sign convention, canonical-parse shape, decode-entry funnel (C02's FUNNEL instances), coordinate-wise selection shape (SELECT)",
     category="other",
     text="Decides that the code of each build IS the specification's decode and encode maps for all inputs, representatives and projective scalings at once "
          "(function comparison by normal form, not sampling); plus that vartime_compress is the canonical LE bytes of that value and that the sign convention "
@@ -48,27 +48,27 @@ CHECKS["C02"] = dict(
          "points reduces to decode(unmodified input) with only length/read/mode guards, and reachable non-debug panic sites are tabled with reasons.",
     note=OTHER_NOTE + " 'ISQRT answers square? correctly' is C09; primitive reduction/serialisation is C10/C11.", design="DESIGN.md §4 C02")
 CHECKS["C03"] = dict(
-    technique="static: TERM conformance of the encoder on projective coordinates, homogeneity weights of the extracted polynomial under projective scaling (HOMOG), observation funnel over all encoding entry points",
+    technique="static: TERM conformance of the encoder on projective coordinates, homogeneity weights of the extracted polynomial under projective scaling (HOMOG), observation funnel with exactness obligations over all encoding entry points, provenance of the affine<->projective conversion sites (C06's PROV instances), identity-form forwarding (into_affine etc.)",
     category="other",
     text="The encoder equals the specification's map on projective (X:Y:Z:T) as a polynomial function; independently of the spec its output has weight 0 under scaling and every "
          "sign test looks at a weight-0 quantity; all 13 encoding entry points (conversions, serialisers, Debug/Display, ToConstraintField) observe self only through bytes(encode(self)).",
     note=OTHER_NOTE + " Constancy on cosets and injectivity of the specified encoder are the Decaf theorem (assumed).", design="DESIGN.md §4 C03")
 CHECKS["C04"] = dict(
-    technique="static: forwarding rule over every compiler-listed operator impl (FWD: result denotes G_ADD/G_NEG on the impl's own operands), polynomial ideal-membership by normal-form reduction for the hand-written formulas incl. a completeness factorisation of Z3 (IDEAL), identity/generator constants",
+    technique="static: forwarding rule over every compiler-listed operator impl (FWD: result denotes G_ADD/G_NEG on the impl's own operands), polynomial ideal-membership by normal-form reduction for the hand-written formulas incl. a completeness factorisation of Z3 (IDEAL), identity/generator constants, identity-form forwarding of the arkworks conversion/cofactor/generator methods, coordinate-wise selection shape (SELECT)",
     category="other",
     text="All 59 Add/Sub/Neg/AddAssign/SubAssign/Sum impls plus negate/double_in_place are interpreted down to the arkworks point operations and must denote the right abstract group "
          "operation on their own operands; the minimal backend's add/double/neg formulas are proved to satisfy the a=-1 twisted Edwards law as polynomial identities modulo T*Z=X*Y and the "
          "curve equation, with Z3 a product of never-vanishing factors (completeness).",
     note=OTHER_NOTE + " Trusted: arkworks' twisted_edwards Projective/Affine operators are the complete group law.", design="DESIGN.md §4 C04")
 CHECKS["C05"] = dict(
-    technique="static: forwarding rule over every Mul/MulAssign impl and mul_bigint / multiscalar stub (FWD), loop-summary template match of the double-and-add ladder for both const-generic variants (LADDER), group-order facts on const-evaluated constants",
+    technique="static: forwarding rule over every Mul/MulAssign impl and mul_bigint / multiscalar stub (FWD), loop-summary template match of the double-and-add ladder for both const-generic variants (LADDER), the selection the constant-time ladder is built on (SELECT), group-order facts on const-evaluated constants",
     category="other",
     text="Every scalar-multiplication form denotes G_SMUL(point operand, scalar operand); mul_bigint forwards the whole integer; the multiscalar stub folds s*P from the identity; the minimal "
          "backend's ladder is the LSB-first double-and-add over all limbs x 64 bits with no early exit (premises of the textbook induction); cofactor 1, r prime, generator of exact order r.",
     note=OTHER_NOTE + " Module laws follow from G_SMUL being the k-fold sum (assumed); arkworks mul_bigint trusted.", design="DESIGN.md §4 C05")
 
 CHECKS["C06"] = dict(
-    technique="static: provenance typestate over every compiler-resolved construction site of Element/AffinePoint (PROV), validity of the published constants (CONST)",
+    technique="static: provenance typestate over every compiler-resolved construction site of Element/AffinePoint (PROV), coordinate-wise selection shape (SELECT), validity of the published constants (CONST), compile_fail witnesses that the representation is not constructible downstream (WIT, thorough)",
     category="other",
     text="The representation fields are not public, so values of these types arise only at construction sites inside the crate. All 32 sites (28 arkworks build, 4 minimal build) "
          "are found from the resolved HIR and the wrapped curve point's term must have provenance in the closed set VALID (decode / Elligator output, validated constant, group "
@@ -76,7 +76,7 @@ CHECKS["C06"] = dict(
     note=OTHER_NOTE + " Assumes decode/Elligator outputs are valid (Decaf theorems; their conformance is C01/C07) and that arkworks group operations stay in the group.",
     design="DESIGN.md §4 C06")
 CHECKS["C08"] = dict(
-    technique="static: canonical polynomial form of the PartialEq condition (TERM), observation-class shield dataflow over the Hash impls' hasher writes (OBS), identity-predicate normal form and identity-value denotation (IDENT)",
+    technique="static: canonical polynomial form of the PartialEq condition (TERM), observation-class shield dataflow over the Hash impls' hasher writes (OBS), identity-predicate normal form and identity-value denotation (IDENT), including predicates inherited from default methods of external traits (the driver lists the provided methods an impl does not override)",
     category="other",
     text="Equality is X1*Y2 - Y1*X2 = 0 on the operands' own coordinates and nothing else; Hash may observe self only through bytes(encode(self)); every identity predicate "
          "normalises to X == 0 and every identity value denotes the neutral element - for all representatives at once.",
@@ -91,7 +91,7 @@ CHECKS["C10"] = dict(
     design="DESIGN.md §4 C10")
 
 CHECKS["C07"] = dict(
-    technique="static: TERM conformance of elligator_map with the specification's optimised Elligator 2 routine (canonical polynomial forms, projective comparison), forwarding of encode_to_curve / hash_to_curve, constants",
+    technique="static: TERM conformance of elligator_map with the specification's optimised Elligator 2 routine (canonical polynomial forms, projective comparison), forwarding of encode_to_curve / hash_to_curve, constants, and the structural rules of the square-root-of-ratio routine whose non-square output only this map consumes (C09's instances)",
     category="other",
     text="NECESSARY PART ONLY: decides that each build's one-input map is, as a function of r0 (both ISQRT branches and both signs at once), the published optimised Elligator 2 routine "
          "as a projective point, and that the public forms forward to it (two-input hash = group sum of two maps). That the optimised routine equals unoptimised Elligator 2, the "
